@@ -148,15 +148,29 @@ impl Sub for Partition {
             let dict = build_case_dict(&files, user, case.mapping.as_ref(), false)?;
             let tokenizer = crate::refmodel::make_tokenizer_h(dict, o.ignore_space, o.max_grouping_len, o.history)?;
             let mut worker = tokenizer.new_worker();
-            for s in &case.sentences {
-                let repeated;
-                let s = if self.stress && !s.is_empty() {
+            // stress: every sentence repeated up to 20 000 characters, and the first two also as
+            // "s + 70 000 space characters + s" (more than 2^16 characters skipped or grouped at once)
+            let mut stress_sentences: Vec<String> = vec![];
+            if self.stress {
+                let rc = rd.chars();
+                let sp = rc.space_idx().map(crate::refmodel::cat_bit).unwrap_or(0);
+                // only under ignore_space (the run is skipped: no cost accumulates, cf. the i32 bound of the domain)
+                let space_char = if o.ignore_space { crate::gen::dict::SPACE_CHARS.iter().copied().find(|&c| rc.info(c).cats & sp != 0) } else { None };
+                for (i, s) in case.sentences.iter().enumerate() {
+                    if s.is_empty() {
+                        stress_sentences.push(String::new());
+                        continue;
+                    }
                     let n = s.chars().count();
-                    repeated = s.repeat((20_000 / n).max(1));
-                    &repeated
-                } else {
-                    s
-                };
+                    stress_sentences.push(s.repeat((20_000 / n).max(1)));
+                    if let (true, Some(space_char)) = (i < 2, space_char) {
+                        let pad: String = std::iter::repeat(space_char).take(70_000).collect();
+                        stress_sentences.push(format!("{s}{pad}{s}"));
+                        ctx.label("sentence_with_70000_space_characters");
+                    }
+                }
+            }
+            for s in if self.stress { &stress_sentences } else { &case.sentences } {
                 let toks = guard(|| {
                     worker.reset_sentence(s);
                     worker.tokenize();
@@ -204,7 +218,7 @@ pub fn run(opts: &crate::engine::Opts) -> crate::engine::Report {
     // stress sentences of ~20 000 characters (accumulated cost stays inside i32: |cost| per step
     // ≤ 65 534 in the generated cost regimes); a small sample in the quick tier keeps the path alive
     let c = Partition { long: true, stress: true };
-    run_sub(&c, opts, opts.tier.pick(16, 600), &mut rep);
+    run_sub(&c, opts, opts.tier.pick(64, 1200), &mut rep);
     rep
 }
 
